@@ -1,4 +1,5 @@
 import PP.Lemmas.Generalise
+import PP.Lemmas.Typed
 import PP.Props.C05
 /-
 C12: the signature displayed for a bucket of `Snapshot.Aggregate` truthfully
@@ -15,7 +16,10 @@ the key and the members is needed, well-formed signatures), for every bucket
     every member has the shape of the bucket; a position where all members agree
     is shown unchanged; a position where two members differ is shown as `*`;
     hence a position not shown as `*` holds the value of every member;
-  * at the exact levels the arguments are those of every member verbatim.
+  * at the exact levels the arguments are those of every member verbatim;
+  * the typed rendering of the arguments (`Args.Processed`, made by source analysis) is shown for
+    a bucket only when nothing was generalised: the signature is the first member's verbatim and
+    every other member is `equal` to it; as soon as one member differs no call shows one.
 -/
 namespace PP
 
@@ -163,6 +167,38 @@ theorem exact_levels_no_star {π : Oracle} (hπ : ValidOracle π) (l : Lvl)
   rw [exact_levels_args_verbatim hπ l hl gs hnd hwf b hb g hgm] at hs
   exact hns g (mem_members.1 hgm).1 s hs
 
+/-- the typed rendering: a bucket one of whose calls shows typed arguments has the first member's
+signature verbatim (typed arguments included), and every other member is `equal` to it — same
+state, creator, lock flag, sleep range, frames and arguments at the strictest level -/
+theorem typed_args_only_if_unmerged {π : Oracle} (hπ : ValidOracle π) (l : Lvl) (gs : List Goroutine)
+    (hnd : (gs.map (·.id)).Nodup) :
+    ∀ b ∈ aggregateWith π l gs, (∃ c ∈ b.sig.stack.calls, c.args.processed ≠ []) →
+      ∃ g rest, b.members gs = g :: rest ∧ b.sig = g.sig ∧
+        ∀ h ∈ rest, Signature.equal b.sig h.sig = true := by
+  intro b hb ⟨c, hc, hne⟩
+  rcases bucket_typed hπ l gs hnd b hb with ⟨m₀, rest, e, hk, hall⟩ | hno
+  · obtain ⟨g, rest', e', rfl, rfl⟩ := List.map_eq_cons_iff.1 e
+    exact ⟨g, rest', e', hk, fun h hh => hall _ (List.mem_map_of_mem hh)⟩
+  · exact absurd (hno c hc) hne
+
+/-- contrapositive, as the property puts it: as soon as two members differ in anything `equal`
+looks at (e.g. one argument value), no call of the bucket shows typed arguments, so no typed
+value held by only some members is presented as common -/
+theorem no_typed_args_if_members_differ {π : Oracle} (hπ : ValidOracle π) (l : Lvl) (gs : List Goroutine)
+    (hnd : (gs.map (·.id)).Nodup) :
+    ∀ b ∈ aggregateWith π l gs, ∀ g rest, b.members gs = g :: rest →
+      (∃ h ∈ rest, Signature.equal g.sig h.sig = false) →
+        ∀ c ∈ b.sig.stack.calls, c.args.processed = [] := by
+  intro b hb g rest hm ⟨h, hh, hne⟩ c hc
+  rcases bucket_typed hπ l gs hnd b hb with ⟨m₀, rest', e, hk, hall⟩ | hno
+  · rw [hm] at e
+    simp only [List.map_cons, List.cons.injEq] at e
+    obtain ⟨rfl, rfl⟩ := e
+    have := hall _ (List.mem_map_of_mem (f := fun x : Goroutine => x.sig) hh)
+    rw [hk, hne] at this
+    exact absurd this (by simp)
+  · exact hno c hc
+
 /-! ### non-vacuity -/
 
 section Example
@@ -211,6 +247,23 @@ example : (bucketLoop idOracle .exactLines 0 [] exGs).map
       (fun b => b.key.flatArgs.map Scalar.name) =
     [[[], [], [], [], []], [[], [], [], [], []]] := by decide
 
+/-- the same goroutines after source analysis (every call carries a typed rendering) -/
+private def typed (g : Goroutine) (r : Bytes) : Goroutine :=
+  { g with sig := { g.sig with stack := { g.sig.stack with
+      calls := g.sig.stack.calls.map (fun c => { c with args := { c.args with processed := [r] } }) } } }
+private def exTyped : List Goroutine :=
+  [typed exGs[0] b!"int(1), S{2, {*T(0xc000012340), 3}}, 4", typed exGs[2] b!"int(1), S{2, {*T(0xc000012340), 3}}, 4",
+   typed exGs[1] b!"int(1), S{2, {*T(0xc000099990), 3}}, 4"]
+/-- goroutines 1 and 7 are equal: at `.exactLines` their bucket keeps the typed rendering (and
+`typed_args_only_if_unmerged` applies to it); at `.anyPointer` goroutine 2 joins, the pointer is
+starred and no typed rendering is shown any more -/
+example : (bucketLoop idOracle .exactLines 0 [] exTyped).map
+      (fun b => (b.ids, b.key.stack.calls.map (fun c => c.args.processed.length))) =
+    [([1, 7], [1]), ([2], [1])] := by decide
+example : (bucketLoop idOracle .anyPointer 0 [] exTyped).map
+      (fun b => (b.ids, b.key.stack.calls.map (fun c => c.args.processed.length))) =
+    [([1, 7, 2], [0])] := by decide
+
 /-- the members differ at position 2 and nowhere else -/
 example : exGs[0].sig.flatArgs[2]? ≠ exGs[1].sig.flatArgs[2]?
     ∧ ∀ i, i ≠ 2 → exGs[0].sig.flatArgs[i]? = exGs[1].sig.flatArgs[i]? := by
@@ -253,3 +306,5 @@ end PP
 #print axioms PP.no_partial_value
 #print axioms PP.exact_levels_args_verbatim
 #print axioms PP.exact_levels_no_star
+#print axioms PP.typed_args_only_if_unmerged
+#print axioms PP.no_typed_args_if_members_differ
